@@ -110,6 +110,8 @@ def call_builtin(eng, name, bound_self, args, kwargs, st, fr, k, node=None):
             return k(st, SInt(z3.Select(st.heap.get(("sn", bm.kfam(x.kind))), x.t)))
         if isinstance(x, (STuple, SConstSeq)):
             return k(st, SInt(len(x.items)))
+        if isinstance(x, SSnap):
+            return k(st, SInt(x.n))
         raise _err(f"len({x!r})")
     if name == "isinstance":
         return k(st, SBool(isinstance_bool(eng, st, args[0], args[1])))
